@@ -6,6 +6,7 @@ mod dumpcheck;
 mod extra;
 mod forge;
 mod judge;
+mod rngtrace;
 mod keyextra;
 mod keylayout;
 mod session;
@@ -175,6 +176,17 @@ fn main() {
             let res: Vec<serde_json::Value> = reqs.iter().map(sizes::check_size).collect();
             for r in res {
                 println!("{}", r);
+            }
+        }
+        Some("rngtrace") => {
+            install_quiet_panic_hook();
+            let max_h: usize = args.get(2).and_then(|s| s.parse().ok()).unwrap_or(2);
+            let (events, results) = rngtrace::run(max_h);
+            for e in events {
+                println!("{}", serde_json::json!({"trace": e}));
+            }
+            for r in results {
+                println!("{}", serde_json::json!({"result": r}));
             }
         }
         Some("helpers") => {
